@@ -706,9 +706,10 @@ def elem_effects(c):
 
 def collapse_rule(ck, fb):
     """TetrahedralMeshTopologyKernel::collapse_edge re-creates the cells around the removed vertex: the property values of
-    every re-created halfedge, halfface and cell have to move to the new entity"""
-    from .canon import Canon
-    ck.rule("C03.collapse", "collapse_edge moves the property values of the entities it re-creates: swap_property_elements(old, new) is called for the halfedges (new = result of add_halfedge), the halffaces (new = result of add_halfface) and the cells (new = result of add_cell) of every rebuilt cell")
+    every entity it CREATES follow from the entity it replaces; an entity that existed before keeps its own values"""
+    from .canon import Canon, split_eq
+    import re
+    ck.rule("C03.collapse", "collapse_edge transfers property values (swap_/copy_property_elements(old, new)) to the halfedges, halffaces and cells it creates (new = result of add_halfedge / add_halfface / add_cell); for halfedges and halffaces - where add_* may return an entity that existed before and survives - the transfer happens only under a comparison of the new entity's index with a count taken from the mesh (created here), and it is a copy: a swap undoes itself when two rebuilt cells share the entity")
     fs = [f for f in fb.by_cls.get("OpenVolumeMesh::TetrahedralMeshTopologyKernel", []) if f.name == "collapse_edge" and f.has_cfg]
     if len(fs) != 1:
         raise AnalysisBroken("anchor vanished: TetrahedralMeshTopologyKernel::collapse_edge (%d)" % len(fs))
@@ -716,14 +717,33 @@ def collapse_rule(ck, fb):
     cn = Canon(f)
     seen = {}
     for b, i, x in f.nodes(("call",)):
-        if not x.get("pn", "").endswith("swap_property_elements") or b not in f.reach() or len(x.get("a", [])) != 2:
+        nm = x.get("pn", "").split("::")[-1]
+        if nm not in ("swap_property_elements", "copy_property_elements") or b not in f.reach() or len(x.get("a", [])) != 2:
             continue
         a = f.resolve(x["a"])
         t = (unwrap(a[1]).get("t") or unwrap(a[1]).get("rt") or "").replace("const ", "").split("::")[-1]
-        seen.setdefault(t, []).append(cn.s(x["a"][1]))
-    for kind, creator in (("HEH", "add_halfedge("), ("HFH", "add_halfface("), ("CH", "add_cell(")):
-        ok = any(v.startswith(creator) or creator in v for v in seen.get(kind, []))
-        (ck.ok if ok else lambda r, w, t: ck.violate(r, w, t, "C03.collapse:%s" % kind))("C03.collapse", f.where, "collapse_edge: swap_property_elements(old, %s...)) carries the %s properties over (found %s)" % (creator, kind, [v[:40] for v in seen.get(kind, [])] or "no such call"))
+        seen.setdefault(t, []).append((cn.s(x["a"][1]), nm, b, x))
+    for kind, creator, count in (("HEH", "add_halfedge(", "n_edges()"), ("HFH", "add_halfface(", "n_faces()"), ("CH", "add_cell(", None)):
+        hits = [h for h in seen.get(kind, []) if h[0].startswith(creator) or creator in h[0]]
+        ok = bool(hits)
+        (ck.ok if ok else lambda r, w, t: ck.violate(r, w, t, "C03.collapse:%s" % kind))("C03.collapse", f.where, "collapse_edge: a property transfer (old, %s...)) carries the %s properties over (found %s)" % (creator, kind, [v[0][:40] for v in seen.get(kind, [])] or "no such call"))
+        if count is None:
+            continue
+        for new, nm, b, x in hits:
+            guarded = False
+            for s_, p_, c_ in cn.facts(b):
+                m = re.fullmatch(r"\((.+) (>=|>|<|<=) (.+)\)", s_)
+                if not m:
+                    continue
+                l_, op, r_ = m.group(1), m.group(2), m.group(3)
+                sides = (l_, r_)
+                if any(new in z for z in sides) and any(z.replace("(size_t)", "").strip("()") in (count.strip("()"), count) or count in z for z in sides) and (("uidx()" in s_) or ("idx()" in s_)):
+                    # new.idx >= count (true) or new.idx < count (false)
+                    newer = (op in (">=", ">") and new in l_) or (op in ("<", "<=") and new in r_)
+                    if newer == bool(p_):
+                        guarded = True
+            (ck.ok if guarded else lambda r, w, t: ck.violate(r, w, t, "C03.collapse:%s:created" % kind))("C03.collapse", f.loc(x), "collapse_edge: %s values are transferred only to an entity created by this call (index compared with %s)" % (kind, count))
+            (ck.ok if nm == "copy_property_elements" else lambda r, w, t: ck.violate(r, w, t, "C03.collapse:%s:copy" % kind))("C03.collapse", f.loc(x), "collapse_edge: the %s transfer is a copy (found %s)" % (kind, nm))
 
 
 def bool_storage_swap_rule(ck, fb):
@@ -986,6 +1006,21 @@ def relabel_loops(ck, f, sets, loops):
             if q_ and p_ is (q_[0] == "==") and ((q_[1] == l_ and is_id(q_[2])) or (q_[2] == l_ and is_id(q_[1]))):
                 return True
         return False
+    # pairwise exchange `if (e == h1) e = h2; else if (e == h2) e = h1;` has to be ONE decision per entry: two passes - first
+    # h1 -> h2 over the definition of h1, then h2 -> h1 over that of h2 - rewrite an entry twice when both definitions
+    # list it (a deferred-deleted cell and the cell added on its halffaces)
+    exs = []
+    for r_ in rewrites(f.reach()):
+        if exchange(r_):
+            inner = [h_ for h_, body_, backs_ in sorted(loops, key=lambda z: len(z[1])) if r_[0] in body_]
+            a_ = as_assign(r_[2])
+            exs.append((cn.s(a_[1]), inner[0] if inner else None, r_))
+    heads = {h_ for v_, h_, r_ in exs}
+    if len({v_ for v_, h_, r_ in exs}) >= 2 and len(heads) >= 2:
+        r_ = exs[-1][2]
+        ck.violate("C17.relabel", f.loc(r_[2]), "%s: the pairwise exchange of the two handles is split into sequential passes (%s): an entry listed by both definitions is rewritten by the first pass and rewritten back by the second" % (f.name, ", then ".join("-> %s" % v_ for v_, h_, r2 in exs)), "C17.relabel:%s:passes" % f.pq)
+    elif exs:
+        ck.ok("C17.relabel", f.loc(exs[0][2][2]), "%s: the pairwise exchange (%d rewrite sites) is one decision per entry" % (f.name, len(exs)))
     for r_ in rewrites(f.reach()):
         if exchange(r_):
             continue
